@@ -2,5 +2,5 @@
 # developer tool: rebuild coq + extraction + driver (+ harness)
 set -e
 cd /verif/coq && make -j16 2>&1 | grep -v "^COQ" || true
-cd /verif/driver && cp ../coq/model.ml ../coq/model.mli . && ocamlfind ocamlopt -O2 -w -a model.mli model.ml conv.ml oracles_glue.ml main.ml -o avt-driver || { echo "DRIVER BUILD FAILED"; exit 1; }
+cd /verif/driver && cp ../coq/model.ml ../coq/model.mli . && ocamlfind ocamlopt -package unix -linkpkg -O2 -w -a model.mli model.ml conv.ml oracles_glue.ml main.ml -o avt-driver || { echo "DRIVER BUILD FAILED"; exit 1; }
 cd /verif/harness && cargo build --release --offline 2>&1 | grep -E "^error" -A8 || true
